@@ -8,9 +8,10 @@ from __future__ import annotations
 import random
 
 NUMERIC = ["a", "b", "I(a*2)", "{a+b}", "center(a)", "scale(b)", "scale(a, ddof=0)", "poly(a, 2)", "np.exp(center(a) / 4)", "scale(center(b))",
-           "{center(a) * center(a)}", "center(b)", "poly(b, 3, raw=True)", "{a * b}", "standardize(a)"]
-SPLINES = ["bs(a, df=4)", "cr(b, df=3)", "cc(a, df=3)", "bs(b, df=5, degree=2, include_intercept=True)", "bs(scale(a), df=4)", "cr(a, df=4, constraints='center')"]
-CATEGORICAL = ["A", "B", "C(A)", "C(A, contr.sum)", "C(B, contr.treatment('v'))", "C(A, levels=['z', 'x', 'y'])", "C(A, contr.helmert)", "C(B, contr.SAS)", "C(A, contr.diff)"]
+           "{center(a) * center(a)}", "center(b)", "poly(b, 3, raw=True)", "{a * b}", "standardize(a)", "standardize(b, rescale=False)"]
+SPLINES = ["bs(a, df=4)", "cr(b, df=3)", "cc(a, df=3)", "bs(b, df=5, degree=2, include_intercept=True)", "bs(scale(a), df=4)", "cr(a, df=4, constraints='center')", "cs(b, df=3)"]
+CATEGORICAL = ["A", "B", "C(A)", "C(A, contr.sum)", "C(B, contr.treatment('v'))", "C(A, levels=['z', 'x', 'y'])", "C(A, contr.helmert)", "C(B, contr.SAS)", "C(A, contr.diff)",
+               "C(A, Sum)", "C(A, Treatment('y'))", "C(B, Helmert)", "C(A, Poly)"]
 LITERALS = ["2.5", "3"]
 
 
@@ -38,7 +39,7 @@ def formulas(seed: int, n: int, flavour: str = "nobranch", max_terms: int = 4):
                 if _var_of(f) in {_var_of(g) for g in fs}:
                     continue
                 fs.append(f)
-            if sum(1 for f in fs if f.startswith(("bs(", "cr(", "cc("))) > 1:
+            if sum(1 for f in fs if f.startswith(("bs(", "cr(", "cc(", "cs("))) > 1:
                 continue
             key = frozenset(fs)
             if not fs or key in keys:
